@@ -874,7 +874,9 @@ def _route_thunks_array(fn, x, d):
     if fn == "clip":
         return _three(fn, x, -1, 1)
     if fn == "squeeze":
-        return _three(fn, x) + [("method_axis", lambda: x.squeeze(h % nd if nd else 0)), ("function_axis", lambda: sr.squeeze(x, h % nd if nd else 0)), ("autoray_axis", lambda: ar.do("squeeze", x, h % nd if nd else 0))]
+        if nd and h & 1:
+            return _three(fn, x, (h >> 1) % nd)
+        return _three(fn, x)
     if fn == "expand_dims":
         return _three(fn, x, h % (nd + 1))
     if fn == "reshape":
